@@ -28,7 +28,7 @@ Proof. exact same_key_same_meaning. Qed.
 Print Assumptions C17_partial_same_key_same_meaning.
 
 Theorem C17_unrepresentable_selector_rejected :
-  forall m o term out, o_selkey o = None -> create_cluster_cidr m o term out = (m, Err ESelector, []).
+  forall m o term boot out, o_selkey o = None -> create_cluster_cidr m o term boot out = (m, Err ESelector, []).
 Proof. exact unrepresentable_selector_rejected. Qed.
 Print Assumptions C17_unrepresentable_selector_rejected.
 
